@@ -27,7 +27,9 @@ RULE = (
     "min <= value <= max (exact; 4 ulp for log-transformed), non-negative > 0, fixed bit-identical, expression parameters absent "
     "from the vector with unchanged expression text, x[j] is the (log of the) value of free_parameter_labels[j]; the same on every "
     "parameter_history row; Jacobian column j equals the finite difference reconstructed from scipy's own evaluation that "
-    "perturbed free_parameter_labels[j], and matches no other column better.  Non-trivial: >= 1 active bound or non-negative "
+    "perturbed free_parameter_labels[j], and matches no other column better; covariance_matrix == pinv(J^T J) of that Jacobian "
+    "in label order and each free parameter's standard_error == rmse * sqrt(cov[j, j]) of ITS column (mapped out of log space "
+    "for non-negative ones).  Non-trivial: >= 1 active bound or non-negative "
     "parameter and >= 3 evaluations; distinct = (method, parameter-option signature)."
 )
 ASSUMPTIONS = [
@@ -35,7 +37,7 @@ ASSUMPTIONS = [
     "the documented guard value 1 -> 1 + 1e-10 for non-negative parameters is within the 1e-9 round-trip tolerance",
 ]
 MIN_NONTRIVIAL = {"quick": 60, "thorough": 400}
-DECIDING = ["roundtrips", "contract:set_from_label_and_value_arrays", "contract:set_value_from_optimization", "evaluations_checked",
+DECIDING = ["standard_errors_checked", "roundtrips", "contract:set_from_label_and_value_arrays", "contract:set_value_from_optimization", "evaluations_checked",
             "history_rows_checked", "jacobian_columns_checked"]
 METHODS = ["TrustRegionReflection", "Dogbox", "Levenberg-Marquardt"]
 
@@ -313,7 +315,24 @@ def check_jacobian(case, log, result, rec):
             continue
         if j not in cand or abs(d[j]) < abs(cand[j][0]):
             cand[j] = (d[j], ev)
+    # every single-coordinate perturbation of the optimum (any step size): used to tell whether the objective is
+    # differentiable at finite-difference resolution at all (far-off LM iterates make the projection ill-conditioned)
+    single = {}
+    for ev in log:
+        if ev["penalty"] is None or ev["x"].shape != xopt.shape:
+            continue
+        d = ev["x"] - xopt
+        nz = np.flatnonzero(d != 0)
+        if len(nz) == 1 and abs(d[nz[0]]) <= 1e-2 * max(1.0, abs(xopt[nz[0]])):
+            single.setdefault(int(nz[0]), []).append((ev["penalty"] - f0) / d[nz[0]])
     for j, (h, ev) in sorted(cand.items()):
+        quot = single.get(j, [])
+        if len(quot) >= 2:
+            big = max(np.linalg.norm(q) for q in quot)
+            spread = max(np.linalg.norm(a - b) for a in quot for b in quot)
+            if spread > 0.2 * big:
+                rec.skip("finite differences of the objective at different steps disagree (objective noise-dominated at the optimum)")
+                continue
         # which live parameter moved?
         moved = [l for l in labels if ev["live"][l] != base[0]["live"][l]]
         if moved != [labels[j]]:
@@ -339,6 +358,64 @@ def check_jacobian(case, log, result, rec):
             rec.violation("jacobian:column-values", case, f"column {j} ({labels[j]}) deviates {err[j]:.2e} from the finite difference of the objective")
 
 
+def check_errors(case, result, rec):
+    """Covariance columns and standard errors follow free_parameter_labels: cov == pinv(J^T J) of the reported Jacobian,
+    standard_error(label j) == rmse * sqrt(cov[j, j]) (mapped out of log space for non-negative parameters), and the
+    other parameters carry no standard error of a free one by position."""
+    J = np.asarray(result.jacobian, dtype=float)
+    labels = list(result.free_parameter_labels)
+    cov = np.asarray(result.covariance_matrix, dtype=float) if result.covariance_matrix is not None else None
+    if cov is None or J.ndim != 2 or J.shape[1] != len(labels) or not np.isfinite(J).all():
+        rec.skip("no covariance / non-finite Jacobian")
+        return
+    if cov.shape != (len(labels), len(labels)):
+        rec.violation("covariance:shape", case, f"covariance {cov.shape} for {len(labels)} free parameters")
+        return
+    _, sv, vt = np.linalg.svd(J, full_matrices=False)
+    # singular values next to the eps cut-off make pinv discontinuous: only judge well-separated spectra
+    # (the library drops singular values with sv^2 <= eps, an absolute cut-off)
+    if sv.size == 0 or (sv ** 2 < 1e-10 * (sv ** 2).max()).any() or (sv ** 2 < 1e4 * np.finfo(float).eps).any():
+        rec.skip("Jacobian numerically rank deficient: covariance not comparable")
+        return
+    ref = (vt.T / sv ** 2) @ vt
+    rec.count("covariances_checked")
+    scale = np.sqrt(np.outer(np.diag(ref), np.diag(ref)))
+    if np.abs((cov - ref) / scale).max() > 1e-6:
+        # same matrix under a permutation of the labels?
+        import itertools as it
+
+        perm = None
+        if len(labels) <= 6:
+            for p in it.permutations(range(len(labels))):
+                if np.abs((cov[np.ix_(p, p)] - ref) / scale).max() <= 1e-6:
+                    perm = p
+                    break
+        rec.violation("covariance:" + ("column-order" if perm else "values"), case, f"covariance_matrix != pinv(J^T J) in free_parameter_labels order (permutation that matches: {perm})")
+        return
+    rmse = float(result.root_mean_square_error)
+    errs = rmse * np.sqrt(np.diag(ref))
+    P = case["parameters"]
+    expected = {}
+    for l, e in zip(labels, errs):
+        q = result.optimized_parameters.get(l)
+        if P[l].get("non_negative"):
+            v = float(q.value)
+            if not v > 0:
+                continue
+            expected[l] = v * (math.exp(e) - 1.0) if e < abs(math.log(v)) else abs(v)
+        else:
+            expected[l] = e
+    for l, want in expected.items():
+        got = result.optimized_parameters.get(l).standard_error
+        rec.count("standard_errors_checked")
+        ok = got is not None and np.isfinite(got) and abs(got - want) <= 1e-6 * max(abs(want), 1e-300)
+        if not ok:
+            other = [m for m, w in expected.items() if m != l and got is not None and np.isfinite(got) and abs(got - w) <= 1e-6 * max(abs(w), 1e-300)]
+            rec.violation("standard-error:" + ("belongs-to-other-label" if other else "value"), case,
+                          f"standard_error of {l} is {got!r}, rmse*sqrt(cov[j,j]) for its column gives {want!r}" + (f" (it is the value belonging to {other})" if other else ""))
+            return
+
+
 def run_case(jc, rec, log):
     from glotaran.optimization.optimize import optimize
 
@@ -361,6 +438,7 @@ def run_case(jc, rec, log):
     nb = check_evaluations(jc, log, result, rec)
     check_history(jc, result, rec)
     if result.success and result.jacobian is not None:
+        check_errors(jc, result, rec)
         check_jacobian(jc, log, result, rec)
     return result, nb
 
